@@ -2,7 +2,7 @@
    (or a one-line instantiation) and followed by Print Assumptions.  One file per property, importing only
    what that property's statements need, so that a change which breaks one property's proof leaves the
    others' theorems checkable. *)
-From NTRIP Require Import Base Bits Time Classify Frame FrameSpec FrameProofs SegProofs BadFrame.
+From NTRIP Require Import Base Bits Time Classify Frame FrameSpec FrameProofs SegProofs BadFrame SegMany.
 
 (* ===================== C12 ===================== *)
 (* If in such a stream the payload or CRC bytes of one frame are altered (same length, same
@@ -32,6 +32,31 @@ Theorem C12_transparent : forall h f', bad_frame f' ->
 Proof. exact bad_frame_transparent. Qed.
 Print Assumptions C12_transparent.
 
+(* Any number of corruptions at once.  A stream of valid frames (GFrame), 0xD3-free runs (GJunk) and
+   corrupted frames (GBad: length and leader of a valid frame, CRC mismatch) in any order and number,
+   adjacent runs merged, optionally ending in a truncated frame: every corrupted frame is delivered as
+   one non-RTCM message holding exactly its bytes and every other segment as typed frame / run. *)
+Theorem C12_any_number : forall h gs tail,
+  Forall gwf gs -> gnormal gs -> tail_ok tail ->
+  exists ms h', handle_stream h (gflat gs ++ tail) = Ok (ms, h') /\
+                map core ms = map gexp gs ++ tail_exp tail.
+Proof. exact corrupted_frames_isolated. Qed.
+Print Assumptions C12_any_number.
+
+(* ... and compared with the stream before the corruptions ([healed]: each corrupted frame replaced by the
+   valid frame [orig] gives for it): both reports are complete, of the same length, and differ exactly at the
+   corrupted frames. *)
+Theorem C12_many_vs_uncorrupted : forall h gs orig tail,
+  Forall gwf gs -> gnormal gs -> (forall f, In (GBad f) gs -> valid_frame (orig f)) -> tail_ok tail ->
+  exists ms ms' h1 h2,
+    handle_stream h (gflat gs ++ tail) = Ok (ms, h1) /\
+    handle_stream h (gflat (healed gs orig) ++ tail) = Ok (ms', h2) /\
+    exists rest, map core ms = map gexp gs ++ rest /\ map core ms' = map gexp (healed gs orig) ++ rest /\
+    Forall2 (fun a b => a = b \/ exists f, a = ((-1)%Z, f) /\ b = (Z.of_N (frame_type (orig f)), orig f))
+            (map gexp gs) (map gexp (healed gs orig)).
+Proof. exact many_corruptions. Qed.
+Print Assumptions C12_many_vs_uncorrupted.
+
 Example C12_example :
   let f := [211; 0; 19; 62; 208; 2; 12; 10; 88; 246; 126; 253; 63; 255; 237; 41; 121; 12; 239; 94; 128; 227; 229; 56; 76]%N in
   let f' := [211; 0; 19; 62; 208; 2; 211; 0; 88; 246; 126; 253; 63; 255; 237; 41; 121; 12; 239; 94; 128; 227; 229; 56; 76]%N in
@@ -44,3 +69,19 @@ Proof.
     split; [vm_compute; reflexivity|]. split; reflexivity.
 Qed.
 
+
+(* two corrupted frames around a run and a valid frame: the hypotheses of C12_any_number hold *)
+Example C12_example_two :
+  let f := [211; 0; 19; 62; 208; 2; 12; 10; 88; 246; 126; 253; 63; 255; 237; 41; 121; 12; 239; 94; 128; 227; 229; 56; 76]%N in
+  let f' := [211; 0; 19; 62; 208; 2; 211; 0; 88; 246; 126; 253; 63; 255; 237; 41; 121; 12; 239; 94; 128; 227; 229; 56; 76]%N in
+  let gs := [GBad f'; GJunk [1; 2; 3]%N; GFrame f; GBad f'] in
+  Forall gwf gs /\ gnormal gs /\ tail_ok [].
+Proof.
+  cbv zeta. pose proof C12_example as B. cbv zeta in B.
+  assert (V : valid_frame [211; 0; 19; 62; 208; 2; 12; 10; 88; 246; 126; 253; 63; 255; 237; 41; 121; 12; 239; 94; 128; 227; 229; 56; 76]%N).
+  { vm_compute. reflexivity. }
+  split; [|split].
+  - constructor; [exact B|]. constructor; [split; [discriminate|reflexivity]|]. constructor; [exact V|]. constructor; [exact B|constructor].
+  - cbn. repeat split; reflexivity.
+  - left. reflexivity.
+Qed.
